@@ -138,6 +138,8 @@ def run(check: Check):
   check.floor('R-PAIR', 'sequence metrics using get_target_weight', n_pair, 8)
   from fjsa.props import c05
   c05.static_metric_fields(check)
+  for ci_ in mr.stat_classes(repo):
+    c05._stat_algebra(check, ci_, [c.name for c in mr.stat_classes(repo)])
   _get_target_weight(check)
   _accuracy(check)
   _confusion(check)
